@@ -29,7 +29,8 @@ ASSUMPTIONS = [
     'chord tolerance 1e-10 + 2e-14*R/min(dz) relative (cancellation in r_k^2-r_t^2); depth and optical depth rtol 1e-9',
     'RJUP=71492 km, RSUN=695700 km, k_B=1.380649e-23 typed in',
 ]
-REQUIRED = {'live-update:T': 0.02, 'live-update:planet_mass': 0.03, 'live-update:abundance': 0.03, 'method:new': 0.3, 'method:legacy': 0.3, 'regime:mixed': 0.15, 'regime:saturated-everywhere': 0.02,
+RULE = RULE + ' ' + 'Worlds also come in integer-axis forms (wavenumber and/or temperature axes of the opacity objects held as integer arrays of the same values); after a live update that unbinds the atmosphere (top above 1000 planet radii) nothing is judged.'
+REQUIRED = {'refused-add-before-use': 0.1, 'live-update:T': 0.02, 'live-update:planet_mass': 0.03, 'live-update:abundance': 0.03, 'method:new': 0.3, 'method:legacy': 0.3, 'regime:mixed': 0.15, 'regime:saturated-everywhere': 0.02,
             'regime:transparent': 0.05, 'has-extras': 0.3}
 
 RSUN = 695700000.0
@@ -46,7 +47,10 @@ def _case(draw):
         w = draw(S.world())
     updates = draw(st.lists(st.tuples(st.sampled_from(['abundance', 'temperature', 'planet_mass', 'planet_radius']),
                                       st.floats(0.6, 1.6).filter(lambda x: abs(x - 1) > 0.02)), min_size=0, max_size=3))
-    return {'world': w, 'new_path': new_path, 'scale': scale, 'updates': updates}
+    # a refused operation on the built model before it is used: adding a contribution it already holds (the caller catches
+    # the error and goes on) -- the model is then what it was
+    return {'world': w, 'new_path': new_path, 'scale': scale, 'updates': updates,
+            'refused_add': draw(S.pick([False, True, False]))}
 
 
 def strategy(tier):
@@ -84,6 +88,11 @@ def absorption_sigma_ref(W, model):
 
 def run_model(out, W, case, label):
     m = cut(out, label + '-build', synth.make_model, W, 'transmission', None, new_path_method=case['new_path'])
+    if case.get('refused_add') and m.contribution_list:
+        try:
+            m.add_contribution(m.contribution_list[0])
+        except Exception:
+            out.cls('refused-add-before-use')
     with np.errstate(all='ignore'):
         res = cut(out, label + '-model', m.model)
     return m, res
@@ -176,7 +185,7 @@ def check(case):
 
         # --- opacities ------------------------------------------------------------------
         sigmas, powers = [], []
-        for c in m.contribution_list:
+        for c in {id(c_): c_ for c_ in m.contribution_list}.values():      # each declared contribution once
             sx = np.asarray(c.sigma_xsec, dtype=float)
             if c.name == 'Absorption':
                 sref = absorption_sigma_ref(W, m)
